@@ -124,6 +124,8 @@ OrderLayouts == {<<<<"a", "b">>, <<"a", "b">>>>, <<<<"a", "b">>, <<"b", "a">>>>,
 Big == FMul(FOfInt(100000), FOfInt(100000))
 OrderProgs == {OrderProg(k, va, vb, L[1], L[2]) : k \in {"D1", "D2"}, va \in Vals, vb \in Vals, L \in OrderLayouts}
               \cup {OrderProg(k, va, vb, <<"a", "b">>, <<"b", "a">>) : k \in {"D1", "D2"}, va \in {Big, FNeg(Big)}, vb \in {FOfInt(3), FOfInt(-7)}}
+              \* signed zeros: -0.0 and 0.0 are EQUAL as floats (neither is less than the other)
+              \cup {OrderProg(k, va, vb, <<"a">>, <<"a">>) : k \in {"D1", "D2"}, va \in {FZ, FNeg(FZ), FOfInt(1)}, vb \in {FZ, FNeg(FZ)}}
 
 \* ---- py family: the Python-facing method table (PyNum.tla) ------------------------------------------
 \* registers: 1 F  2 D1(X)  3 D2(X)  4 D1(Y)  5 D2(Y)  6 F (negative)  7 N(D1 X)  8 N(D2 X)
